@@ -109,7 +109,8 @@ func (vc *VC) assume(t Term) {
 
 // name gives a long term a short alias (definitional extension).
 func (vc *VC) name(hint string, t Term) Term {
-	if len(t.S) < 120 {
+	// merged arrays are always named: E-matching triggers of the form (select A i) must see a constant
+	if len(t.S) < 120 && !(t.T.K == SArr && strings.HasPrefix(t.S, "(ite ")) {
 		return t
 	}
 	c := vc.fresh(hint, t.T)
